@@ -349,11 +349,12 @@ func (r *Reconciler) selectNodes(logger logr.Logger, daemonset *datadoghqv1alpha
 		selector, err := utils.ConvertLabelSelector(logger, daemonsetSpec.Strategy.Canary.NodeSelector)
 		if err != nil {
 			logger.Error(err, "Failed to parse label selector")
-		} else {
-			listOptions = append(listOptions, &client.MatchingLabelsSelector{
-				Selector: selector,
-			})
+
+			return err
 		}
+		listOptions = append(listOptions, &client.MatchingLabelsSelector{
+			Selector: selector,
+		})
 	}
 	err := r.client.List(context.TODO(), nodeList, listOptions...)
 	if err != nil {
